@@ -247,7 +247,8 @@ def padder_check(rec):
 # ------------------------------------------------------------------ RegriddingOperator
 @st.composite
 def regrid_recipes(draw, tier):
-    r = draw(C.rg(max_size=48, max_axes=3, harmonic=False))
+    # recorded finding 'regrid_len1': no axis of length 1 while it is recorded
+    r = draw(C.rg(max_size=48, max_axes=3, harmonic=False, min_len=2 if "regrid_len1" in C.KNOWN else 1))
     new = [draw(st.integers(1, n)) for n in r[1]]
     rem = max(1, 64 // C.ssize(r))
     other = draw(C.spaces(0, 2, rem, ("RG", "U", "GL", "DOF")))
